@@ -275,7 +275,12 @@ pub struct World {
     pub exposed: BitSet,
     /// set by `deliver` when the echo of the delivered message re-sends exactly its content
     pub echo_ctx: Option<(BitSet, BitSet)>,
+    pub soft: Vec<Violation>,
     pub cur_txn: Option<(usize, Option<String>)>,
+}
+
+pub fn is_soft(oracle: &str) -> bool {
+    oracle.ends_with("-empty-script") || oracle.ends_with("-noop-retain-script") || oracle.ends_with("path-utf16-in-bytes-doc") || oracle.ends_with("-tombstone-dup") || oracle.ends_with("rebuild-stashed") || oracle.ends_with("restore-gappy")
 }
 
 pub fn viol(oracle: &str, msg: String) -> Violation {
@@ -458,6 +463,7 @@ impl World {
             verbose: std::env::var("YSIM_VERBOSE").is_ok(),
             exposed: BitSet::new(),
             echo_ctx: None,
+            soft: Vec::new(),
             cur_txn: None,
         }
     }
@@ -659,10 +665,27 @@ impl World {
         self.stats.events += 1;
         self.now += 1;
         let r = self.exec_inner(&tev.ev);
-        r.map_err(|mut v| {
-            v.at_eid = tev.eid;
-            v
-        })
+        self.soften(r, tev.eid)
+    }
+
+    /// A violation whose oracle id marks it as one of the narrowly identified known-finding
+    /// shapes (and which leaves the simulated world intact) is recorded and the run goes on, so
+    /// that the rest of the run is still checked; it is reported at the end if nothing else fails.
+    pub fn soften(&mut self, r: VResult, eid: u32) -> VResult {
+        match r {
+            Ok(()) => Ok(()),
+            Err(mut v) => {
+                v.at_eid = eid;
+                if is_soft(&v.oracle) {
+                    if self.soft.len() < 4 {
+                        self.soft.push(v);
+                    }
+                    Ok(())
+                } else {
+                    Err(v)
+                }
+            }
+        }
     }
 
     fn exec_inner(&mut self, ev: &Ev) -> VResult {
@@ -945,7 +968,7 @@ impl World {
         while !self.inflight.is_empty() {
             let i = self.qrng.idx(self.inflight.len());
             let msg = self.inflight.remove(i);
-            self.deliver(&msg)?;
+            { let r = self.deliver(&msg); self.soften(r, u32::MAX)?; }
             guard += 1;
             if guard > 100_000 {
                 return Err(viol("quiesce.livelock", "message storm during quiescence".into()));
@@ -987,12 +1010,12 @@ impl World {
                     seq: self.msg_seq,
                     sv_at_encode: None,
                 };
-                self.deliver(&msg)?;
+                { let r = self.deliver(&msg); self.soften(r, u32::MAX)?; }
                 // forward whatever was emitted on the way
                 let mut guard = 0;
                 while !self.inflight.is_empty() {
                     let m = self.inflight.remove(0);
-                    self.deliver(&m)?;
+                    { let r = self.deliver(&m); self.soften(r, u32::MAX)?; }
                     guard += 1;
                     if guard > 100_000 {
                         return Err(viol(
